@@ -236,7 +236,9 @@ def rule_mirror(fx, rep):
         bad("flatten", "flatten does not read definition[i / 8][i % 8] into entry i", flat)
     neg = fx.one("piece_square_tables::negate")
     n += 1
-    good = bool([1 for bb, t in neg.calls() if norm(callee_name(t) or "").endswith("Neg>::neg")])
+    # in the function itself or in a closure it maps over the table
+    nbodies = [neg] + [fx.bodies[k] for k in fx.bodies if k.startswith(neg.name + "::{closure")]
+    good = bool([1 for nb0 in nbodies for bb, t in nb0.calls() if norm(callee_name(t) or "").endswith("Neg>::neg")])
     rep.obligation(good)
     if not good:
         bad("negate", "negate does not negate the table entries", neg)
